@@ -40,11 +40,11 @@ type fakeStream struct {
 	read bool
 }
 
-func (s *fakeStream) Protocol() protocol.ID            { return s.pid }
-func (s *fakeStream) SetDeadline(time.Time) error      { return nil }
-func (s *fakeStream) Write(b []byte) (int, error)      { return len(b), nil }
-func (s *fakeStream) Close() error                     { return nil }
-func (s *fakeStream) CloseWrite() error                { return nil }
+func (s *fakeStream) Protocol() protocol.ID       { return s.pid }
+func (s *fakeStream) SetDeadline(time.Time) error { return nil }
+func (s *fakeStream) Write(b []byte) (int, error) { return len(b), nil }
+func (s *fakeStream) Close() error                { return nil }
+func (s *fakeStream) CloseWrite() error           { return nil }
 func (s *fakeStream) Read(b []byte) (int, error) {
 	if s.read {
 		return 0, io.EOF
